@@ -542,8 +542,13 @@ func (s *State) evalBuiltin(node *ast.Builtin) object.Object {
 	if minV > 0 {
 		val = object.Value(s.evalInternal(node.Parameters[0]))
 		rt = val.Type()
-		if rt == object.ERROR && t != token.LOG && t != token.CATCH { // log can log (and thus catch) errors.
-			return val
+		if rt == object.ERROR {
+			if t != token.LOG && t != token.CATCH { // log can log (and thus catch) errors.
+				return val
+			}
+			// An error turned into a value (or only logged) must not make the enclosing call cacheable: like
+			// an error result it may be due to the bindings of the moment (f=func(){catch(y)}; f(); y=1; f()).
+			s.env.TriggerNoCache()
 		}
 	}
 	switch t {
